@@ -13,6 +13,13 @@ CHECKS = {
          "specification. Bounded-exhaustive for short histories, random beyond.",
          "Trusts TLC, the reflection-based projection of container contents, and that identity = id for pool items.",
          "DESIGN.md §4 C13"),
+ "C19": ("TLA+ state machine (NatLang.tla, Set specified as a relation by its post-condition) model-checked by TLC; every "
+         "(contents, op) pair and every pair of tag-distinct lists replayed on the real NaturalLanguageValues, random "
+         "histories recorded from it, all judged by NatLangTrace.tla",
+         "Exhaustive TLC check of the ordered-multimap design for <=3 entries over 3 tags; every model transition executed on "
+         "the real code and judged by the specification; random histories of 100 calls beyond the bound.",
+         "Trusts TLC and the direct field projection of LangRefValue entries; texts are non-empty.",
+         "DESIGN.md §4 C19"),
 }
 NOT_YET = "check not built yet in this round (planned in DESIGN.md §4); not claimed until it runs"
 
